@@ -20,6 +20,11 @@ func Str(r *rand.Rand, max int) string {
 	}
 	var b strings.Builder
 	for i := 0; i < n; i++ {
+		if r.Intn(24) == 0 {
+			// text that LOOKS like an escape sequence but is literal characters
+			b.WriteString([]string{`\u0026`, `\u003c`, `\u003e`, `\n`, `\"`, `\\`, `&amp;`, `%00`, `\x00`}[r.Intn(9)])
+			continue
+		}
 		if r.Intn(3) == 0 {
 			b.WriteRune(hostileRunes[r.Intn(len(hostileRunes))])
 		} else if r.Intn(6) == 0 {
